@@ -442,6 +442,14 @@ def run(ctx):
     from ..lints import integer_tests_accept_numpy
     # an index that is an integer - of Python or of NumPy (an element of an index array) - selects the bonds of one atom
     integer_tests_accept_numpy(ctx, BONDS, "R6.integer-index-accepts-numpy", 1)
+    # an index ARRAY of integers is range-checked as a whole (and made positive) by the helper that raises: a bare `% n` folds an index
+    # beyond the atom count onto another atom
+    gi_ = meths["__getitem__"]
+    conv_ = [c for c in ast.walk(gi_) if isinstance(c, ast.Call) and call_name(c) == "_to_positive_index_array"]
+    mods_ = [x for x in ast.walk(gi_) if isinstance(x, ast.BinOp) and isinstance(x.op, ast.Mod) and has_code(x.right, "self._atom_count")]
+    ctx.ob("R1.index-array-range-checked", BONDS, "BondList.__getitem__", "index = _to_positive_index_array(index, self._atom_count)",
+           len(conv_) == 1 and has_code(gi_, "index = _to_positive_index_array(index, self._atom_count)") and not mods_,
+           "indices at or beyond the atom count (and below its negative) must be refused, not wrapped", gi_.lineno)
     # concatenate: every operand moves the offset on by its atom count - also one that has atoms but no bonds
     cc_ = meths["concatenate"]
     loops_ = [lp for lp in ast.walk(cc_) if isinstance(lp, ast.For) and any(isinstance(x, ast.AugAssign) and isinstance(x.target, ast.Name)
